@@ -42,7 +42,7 @@ def run_workers(cases, jobs=16):
 
     def one(chunk):
         slim = [{k: v for k, v in c.items() if k in ("id", "which", "via", "files", "dirs", "config", "config_file",
-                                                      "envvars", "cwd", "remote")} for c in chunk]
+                                                      "envvars", "cwd", "remote", "local_plugins")} for c in chunk]
         p = subprocess.run([sys.executable, "-m", "vh.props.c17_worker"], input=json.dumps(slim).encode(),
                            stdout=subprocess.PIPE, stderr=subprocess.PIPE, timeout=1500)
         if p.returncode != 0:
@@ -103,7 +103,8 @@ def world_sx(obs):
     body = Sym("none") if rm[2] is None else [Sym("some"), json_sx(rm[2]["json"])]
     rem = [rm[0], rm[1], body, Sym("none") if rm[3] is None else [Sym("some"), rm[3]]]
     return [[[f, ok] for f, ok in o["schema_files"]], sb, rem, list(o["schema_errors"]), pe,
-            [[f, ok] for f, ok in o["query_files"]], [[r, m] for r, m in o["op_errors"]], ops,
+            [[f, ok] for f, ok in o["query_files"]],
+            [[[r, m] for r, m in o["op_errors"]], [[r, m] for r, m in o.get("op_errors_raw", o["op_errors"])]], ops,
             [bool(o.get("fragments")), bool(o.get("query_type")), bool(o.get("mutation_type"))]]
 
 
@@ -427,6 +428,7 @@ def build_cases(ctx):
     cases += G.duplicate_name_cases()
     cases += G.section_cases()
     cases += G.remote_cases()
+    cases += G.plugin_schema_cases()
     cases += G.malformed_cases([tuple(x) for x in model.call(ENGINE, [Sym("field-kinds")])])
     # CLI twins (click command + TOML file on disk) of a cross-section
     twins = []
@@ -435,7 +437,7 @@ def build_cases(ctx):
             continue
         g = c["group"]
         pick = (c["id"].startswith(("valid/o_", "valid/base", "violation/base/", "violation-schema/", "valid-schema/",
-                                    "syntax/", "section/", "duplicate/", "remote/"))
+                                    "syntax/", "section/", "duplicate/", "remote/", "plugin-schema/"))
                 or (g in ("invalid-operation", "valid-operation") and c["id"].endswith("/file"))
                 or (g == "invalid-schema" and not c["id"].endswith("+pre")))
         if pick and (thorough or rng.random() < 0.45):
@@ -460,6 +462,19 @@ def build_cases(ctx):
 
 
 # ---------------------------------------------------------------- judging one case
+# "the corresponding ariadne-codegen exception", per class of invalid input
+CORRESPONDING = {
+    "violation": ("InvalidConfiguration", "MissingConfiguration", "PluginImportError"),
+    "violation-schema": ("InvalidConfiguration", "MissingConfiguration", "PluginImportError"),
+    "violation-pair": ("InvalidConfiguration", "MissingConfiguration", "PluginImportError"),
+    "violation-pair-schema": ("InvalidConfiguration", "MissingConfiguration", "PluginImportError"),
+    "invalid-operation": ("InvalidOperationForSchema",),
+    "plugin-schema": ("InvalidOperationForSchema",),
+    "syntax": ("InvalidGraphqlSyntax",),
+    "duplicate-names": ("ParsingError",),
+}
+
+
 def k3_problems(case, obs):
     """The property itself, on the real code only."""
     exc = obs["exception"]
@@ -482,6 +497,12 @@ def k3_problems(case, obs):
             if not exc["codegen"]:
                 problems.append(f"untyped error {exc['module']}.{exc['type']}: {exc['message'][:100]}")
             else:
+                want = CORRESPONDING.get(case["group"])
+                if case.get("kind") == "anonymous":
+                    want = ("ParsingError",)
+                if want and exc["type"] not in want:
+                    problems.append(f"not the corresponding exception: {exc['type']} instead of {'/'.join(want)}: "
+                                    f"{exc['message'][:100]}")
                 for n in case["names"]:
                     if n not in exc["message"]:
                         problems.append(f"message does not name {n!r}: {exc['message'][:120]}")
